@@ -19,8 +19,8 @@ def only(*names):
 PROPERTIES = {
     "C01": {
         "harness_modules": ["contracts.c01", "contracts.c01glue"],
-        "harness_filter": only("lemma.enc_sound", "AtLeast.to_ge_polyhedron(glue)"),
-        "rt": ["rt.logic:a_rs1_rows", "rt.logic:c01_encoding"],
+        "harness_filter": only("lemma.enc_sound", "AtLeast.to_ge_polyhedron(glue)", "AtLeast.to_ge_polyhedron(reduced transport)"),
+        "rt": ["rt.logic:a_rs1_rows", "rt.logic:c01_encoding", "rt.logic:c01_reduced_transport"],
         "level": "other",
         "assumptions": S_ALL + ["A-rs1 (assumed contract of the compiled extension puan_rspy.TheoryPy.to_ge_polyhedron: one big-M row per compound, "
                                 "e_k = sum min(s*lo, s*hi), m_k = e_k - value, asserted top row without own column); validated at run "
@@ -30,7 +30,7 @@ PROPERTIES = {
                        "asserted top row holds iff the node is true (induction on height). bounded stand-ins: (1) the matrix "
                        "returned by the real to_ge_polyhedron equals the rows A-rs1 predicts, row for row, with the model's ids and "
                        "bounds on the columns (this covers the Python statement building and column re-attachment); (2) end to end "
-                       "A x >= b <=> evaluate on random models incl. wide bounds and near-identical variants in sequence. ADDED: contracts.c01glue -- the real to_ge_polyhedron glue against the executable A-rs1 model (pyvc.rsmodel) for 4 tree shapes x all sign assignments, symbolic thresholds and leaf bounds: columns carry ids and bounds, rows hold at truth values iff the model is true (active) / always (inactive).",
+                       "A x >= b <=> evaluate on random models incl. wide bounds and near-identical variants in sequence. ADDED: contracts.c01glue -- the real to_ge_polyhedron glue against the executable A-rs1 model (pyvc.rsmodel) for 4 tree shapes x all sign assignments, symbolic thresholds and leaf bounds: columns carry ids and bounds, rows hold at truth values iff the model is true (active) / always (inactive). reduced=True: the reduction happens inside the compiled extension and is outside every contract here (natively it was seen to lose solutions, DESIGN 8); only the glue's TRANSPORT of the extension's answer is under contract (open contract: fresh symbolic matrix) -- column 0 its right-hand side, the rest its matrix, columns labelled by statement index behind the support variable -- plus the stand-in rt.c01_reduced_transport against the compiled extension.",
     },
     "C02": {
         "harness_modules": ["contracts.c01", "contracts.c01glue"],
